@@ -619,6 +619,8 @@ func c16ListComplete(c *Ctx, L *ssa.Function) {
 			return true
 		case strings.HasPrefix(l, "NE(param:") && strings.HasSuffix(l, ",nil)"):
 			return true
+		case strings.HasPrefix(l, "T(call:errors.Is(param:"), strings.HasPrefix(l, "T(call:os.IsNotExist(param:"):
+			return true // no walk error: a nil error is no instance of any sentinel
 		case c16MaskContradictsRealDir(l, "call:invoke:io/fs.DirEntry.Type(param:"):
 			return true
 		}
@@ -813,6 +815,7 @@ func c16List(c *Ctx, mgrs map[string]bool) {
 		c.Bad("list/real-directories-only", rule, w.FnPos(L), "the walk callback does not append entry names")
 	}
 	c16ListComplete(c, L)
+	c16ListWalkError(c, L)
 	// the walk is over the plugin file system root
 	okWalk := false
 	for _, ci := range allCalls(L) {
